@@ -63,6 +63,8 @@ func init() {
 				}
 				return o.Rule != "SEQ.LAZY"
 			})
+			c.keep(func(o Obligation) bool { return true
+			})
 			c.min("RW.BRANCHCTX", 200)
 			c.min("RW.KINDTAB", 3)
 			c.min("SEQ.FOR", 6)
